@@ -124,6 +124,7 @@ pub fn rows(args: &[String]) {
         let inner_ok = match form {
             "lit" => inner_ty.starts_with(expect_inner) && (inner_ty.ends_with("True)")),
             "arith" => true, // checked by the ARITH rows
+            "measure-slice" => inner_ty.starts_with(expect_inner),
             _ => inner_ty == expect_inner,
         };
         if !inner_ok {
